@@ -15,12 +15,12 @@ SPELLS = '{"time", "qtime", "Time", "TIME"}'
 def cfg(ctx, maxatoms=2, minatoms=None, maxt=3, bases="{2, 3}", offn=0, ops=ALLOPS, sides='{"L", "R"}', spells=SPELLS,
         forms=_c10.ALLFORMS, mode="rot", nt=1, shapes=0, wins="{1, 2, 3, 5}", calls=3, topor=True, fixed=True,
         paren=True, invariants="StepHolds PlainHolds NoGrowthInv NTAgree PrintFaithfulInv"):   # fixed=True: the repaired strip (committed in /repo)
-    return ("SPECIFICATION Spec\nCONSTANTS\n  EdgeMap = FALSE\n  FixedStrip = %s\n  ParenTopOr = %s\n  MaxAtoms = %d\n  MaxT = %d\n  Bases = %s\n"
+    return ("SPECIFICATION Spec\nCONSTANTS\n  EdgeMap = FALSE\n  FixedStrip = %s\n  ParenTopOr = %s\n  MaxAtoms = %d\n  MaxT = %d\n  Bases %s\n"
             "  OffN = %d\n  Ops = %s\n  Sides = %s\n  Spells = %s\n  Forms = %s\n  DateBases = {2, 3}\n"
             "  FormMode = \"%s\"\n  NTLevel = %d\n  ShapeLevel = %d\n  Seed = %d\n  WinIds = %s\n  MaxCalls = %d\n  TopOr = %s\n"
             "  MinAtoms = %d\n"
             "INVARIANTS %s\nCHECK_DEADLOCK FALSE\n"
-            % ("TRUE" if fixed else "FALSE", "TRUE" if paren else "FALSE", maxatoms, maxt, bases, offn, ops, sides, spells, forms, mode, nt, shapes,
+            % ("TRUE" if fixed else "FALSE", "TRUE" if paren else "FALSE", maxatoms, maxt, ("<- " + bases) if bases.isidentifier() else ("= " + bases), offn, ops, sides, spells, forms, mode, nt, shapes,
                ctx.seed % 1000, wins, calls, "TRUE" if topor else "FALSE",
                (maxatoms if minatoms is None else minatoms), invariants))
 
@@ -65,7 +65,7 @@ def run(ctx):
                                   forms='{"rfc", "now", "int"}', bases="{2, 3}", calls=2, wins="{1, 2, 5}", topor=False), None, None))
         # old bounds at and one nanosecond beyond the smallest and largest instant (a bound that cannot be evaluated is
         # stripped like any other)
-        parts.append(("edge", cfg(ctx, maxatoms=1, mode="all", nt=1, ops=OPS3, bases="{0, 5}", offn=1, forms='{"rfc", "int"}',
+        parts.append(("edge", cfg(ctx, maxatoms=1, mode="all", nt=1, ops=OPS3, bases="BasesFar", offn=1, forms='{"rfc", "rfcfar", "int"}',
                                   spells='{"time"}', calls=2, wins="{1, 2}", topor=False), None, None))
         # empty and reversed windows among ordinary ones, every sequence of 3
         parts.append(("empty", cfg(ctx, maxatoms=1, mode="rot", nt=1, ops=OPS3, wins="{1, 2, 6, 7}", calls=3), None, None))
